@@ -8,7 +8,7 @@ CLAIMED = {
                 text='seeded search over interleavings (file-system-call granularity) of 2-5 contender processes running '
                      'the real FileLock/SemLock/LockFile code on a simulated kernel (SimFS flock semantics, simulated clock, '
                      'process kills); online mutual-exclusion monitor, justified-timeout oracle, relock-after-quiescence '
-                     '(incl. giving up on stale information after the lock became free) and deadlock detection; one unlink of the lock file may fail (EPERM/EIO/EACCES), one flock() may fail (ENOLCK/EINTR/EIO); in the tile-locker mode the locks come from TileLocker.lock() while another task keeps running cleanup_lockdir(); semaphores may live in such a cleaned directory, with slots held for 100 s and late-coming contenders. Sampling of schedules, not proof.',
+                     '(incl. giving up on stale information after the lock became free) and deadlock detection; one unlink of the lock file may fail (EPERM/EIO/EACCES), one flock() may fail (ENOLCK/EINTR/EIO); in the tile-locker mode the locks come from TileLocker.lock() while another task keeps running cleanup_lockdir(); semaphores may live in such a cleaned directory, with slots held for 100 s and late-coming contenders; the wall clock may be set back ten minutes while locks are held. Sampling of schedules, not proof.',
                 note='trusted: SimFS model of open/flock/unlink/close semantics (differentially tested against tmpfs), '
                      'pre-emption only at seam calls, CPython refcounting for descriptor lifetime',
                 technique='deterministic simulation: baton-passing scheduler over real threads + in-memory POSIX fs with flock, seeded schedule search, process-kill injection'),
@@ -82,7 +82,7 @@ CLAIMED = {
                      'file cache (also with symlinked single-colour tiles) on SimFS or per-level sqlite cache, plus two or three concurrent requests under a refresh rule (the upstream may answer in no time, so that a request is overtaken between its freshness check and its lock); oracle from the timestamps actually recorded: stale tile => '
                      'upstream asked, tile rewritten with the new fetch generation; fresh tile => no upstream call, same '
                      'generation; a failed refresh never removes or changes the stored tile; a tile written during a request is recorded with '
-                     'the time of that write even when the source reports older data; single stored tiles may be aged (mixed-age meta tiles) or disappear; bulk_meta_tiles deployments fetch tile by tile; a disk error may hit the store of a refreshed tile (the old tile must survive); an optional transparent overlay source may fail softly (the uncacheable result must not be stored); the seeding tile manager carries the cache\'s own refresh_before; seed workers may be forked copies of the tile manager; absolute thresholds also arrive as datetime objects; the tile manager may be built by the real loader (two grids); same-second band unspecified. Cases run in seeded '
+                     'the time of that write even when the source reports older data; single stored tiles may be aged (mixed-age meta tiles) or disappear; bulk_meta_tiles deployments fetch tile by tile; a disk error may hit the store of a refreshed tile (the old tile must survive); an optional transparent overlay source may fail softly (the uncacheable result must not be stored); the seeding tile manager carries the cache\'s own refresh_before; seed workers may be forked copies of the tile manager; the seed task may come out of the seeding configuration with a tile written between reading it and seeding; absolute thresholds also arrive as datetime objects; the tile manager may be built by the real loader (two grids); same-second band unspecified. Cases run in seeded '
                      'fixed-offset local time zones or one with daylight-saving time in force.',
                 note='trusted: simulated clock behind time.time/time.sleep/datetime.now of util/times.py, stub upstream, SimFS mtimes; '
                      'sqlite backend outside the simulator',
@@ -95,14 +95,14 @@ CLAIMED = {
                      'HTTPClient.open; oracle: identical validators and body while the fetch generation in the pixels is '
                      'unchanged, 304 + empty body for the current ETag, every 304 justified (also for the previous copy\'s validators, pre-1970 '
                      'dates and requests that themselves trigger the refresh), fill images carry no-store, get no 304 and are never '
-                     'served from the cache. The cache may carry an invisible watermark filter, WMS-C answers may be merged from two cached layers, and the cache may sit on top of an inner cache with a larger tile size (fill images must stay uncacheable through the crop). A cacheable 404 mapping of the same colour may sit next to the uncached 500 one (the oracle replays what is stored per tile); race cases rewrite a tile through the cache API while it is served (file backend at file-system-call granularity, per-level sqlite at SQLite-call granularity, with and without a refresh rule) (a response\'s ETag may equal the stored tile\'s only if the bodies agree). A rewrite two or more seconds after the previous write must move Last-Modified on. The disk may be full while a fetched tile is stored (a tile that was not stored must not be answered with 304 later). Dates are written and read by the check\'s own code; cases run in seeded fixed-offset local time zones.',
+                     'served from the cache. The source may make one colour transparent (error fill images pass through that operation too). The cache may carry an invisible watermark filter, WMS-C answers may be merged from two cached layers, and the cache may sit on top of an inner cache with a larger tile size (fill images must stay uncacheable through the crop). A cacheable 404 mapping of the same colour may sit next to the uncached 500 one (the oracle replays what is stored per tile); race cases rewrite a tile through the cache API while it is served (file backend at file-system-call granularity, per-level sqlite at SQLite-call granularity, with and without a refresh rule) (a response\'s ETag may equal the stored tile\'s only if the bodies agree). A rewrite two or more seconds after the previous write must move Last-Modified on. The disk may be full while a fetched tile is stored (a tile that was not stored must not be answered with 304 later). Dates are written and read by the check\'s own code; cases run in seeded fixed-offset local time zones.',
                 note='trusted: simulated HTTP transport and clock; sqlite backend outside the simulator; creating responses are '
                      'excluded from the equality clause',
                 technique='deterministic simulation: full WSGI stack over simulated clock, file system and upstream with HTTP-500 injection; model-based history checking'),
     'C12': dict(level='exploration', ref='DESIGN.md 6.6',
                 text='seeded cache contents (tiles stored at seeded simulated times, some in the same second; foreign objects: a '
                      'second cache, lock files, stray files) x one cleanup task (level list / range / open and zero-ended ranges / all; remove_all, remove_before as '
-                     'absolute time / relative age / file mtime, default; full extent, bbox (grid SRS or EPSG:4326), polygon or multi-part coverage; seeded fixed-offset local time zone and file time-stamp granularity; a deep variant places tiles around the bundle borders of levels 8/9 of a twelve-level pyramid; an earlier cleanup task of the same run may precede the task under test; directories may be older than their tiles; removals may take seconds; a temporary file may vanish while the cleanup walks its directory; tiles may be stored again before the cleanup; the cache may have a coverage of its own; SQLite caches may run in WAL mode with connections kept open by another process (database files carry simulated time stamps); the clock of the cleanup may be behind the newest tiles; factor-2, sqrt2 and custom-resolution grids) built by the real '
+                     'absolute time / relative age / file mtime, default; full extent, bbox (grid SRS or EPSG:4326), polygon or multi-part coverage; seeded fixed-offset local time zone and file time-stamp granularity; a deep variant places tiles around the bundle borders of levels 8/9 of a twelve-level pyramid; an earlier cleanup task of the same run may precede the task under test; directories may be older than their tiles; removals may take seconds; a temporary file may vanish while the cleanup walks its directory; tiles may be stored again before the cleanup; the cache may have a coverage of its own; another process may hold the write lock of a database file during the cleanup (a loud failure is accepted, a silent one is not); SQLite caches may run in WAL mode with connections kept open by another process (database files carry simulated time stamps); the clock of the cleanup may be behind the newest tiles; factor-2, sqrt2 and custom-resolution grids) built by the real '
                      'CleanupConfiguration and executed by the real cleanup() - all three strategies, with the real '
                      'TileCleanupWorker threads under the scheduler - on file (6 layouts, linked single-colour tiles, cache-level refresh_before), compact v1/v2 (SimFS), sqlite, mbtiles, '
                      'geopackage (tmpfs); oracle from recorded timestamps and independent geometry: must-remove / must-keep / '
